@@ -6,6 +6,7 @@ import Driver.GConfig
 import Driver.GSort
 import Driver.EnvTmpl
 import Driver.Gencommon
+import Driver.Log
 /-! Line-protocol driver: one request per line on stdin, one answer per line on stdout.
 Core-only so that it links as a native executable. -/
 open Drv
@@ -17,6 +18,7 @@ structure DState where
   gsort : Drv.GSort.St := {}
   tmpl : Drv.EnvTmpl.St := {}
   gcm : Drv.GC.St := {}
+  lg : Drv.Log.DSt := {}
 
 def step (st : DState) (line : String) : DState × String :=
   match words line with
@@ -26,6 +28,7 @@ def step (st : DState) (line : String) : DState × String :=
   | "gcm" :: rest => let r := Drv.GC.handle st.gcm rest; ({ st with gcm := r.1 }, r.2)
   | "tmpl" :: rest => let r := Drv.EnvTmpl.handle st.tmpl rest; ({ st with tmpl := r.1 }, r.2)
   | "gso" :: rest => let r := Drv.GSort.handle st.gsort rest; ({ st with gsort := r.1 }, r.2)
+  | "lg" :: rest => let r := Drv.Log.handle st.lg rest; ({ st with lg := r.1 }, r.2)
   | "gs" :: rest => let r := Drv.GSync.handle st.gsync rest; ({ st with gsync := r.1 }, r.2)
   | "case" :: "gsync" :: rest =>
     match Drv.GSync.initCase rest with
